@@ -28,6 +28,7 @@ SAMECLS = z3.Function("same_node_class", Expr, Expr, BoolSort())
 KWKEYS_EQ = z3.Function("same_keyword_names", Expr, Expr, BoolSort())
 IS_KW = z3.Function("is_CallWithKwargs", Expr, BoolSort())
 NPOS = z3.Function("n_positional", Expr, IntSort())
+PARD = z3.Function("parameter_in_dict_order", Expr, IntSort(), Expr)   # keyword values in insertion order: not aligned by key
 
 
 def rec_axioms():
@@ -122,24 +123,30 @@ class VCall(V):
 class VParams(V):
     ty = None
 
-    def __init__(self, call, n, full):
+    def __init__(self, call, n, full, by_key=True):
         self.call, self.n, self.full = call, n, full    # full: keyword values appended
+        self.by_key = by_key                            # keyword values are in key order (aligned between two calls)
 
     def length(self, it):
         return VInt(self.n)
 
+    def at(self, i):
+        # keyword values that were not sorted by key are only known by their position in the dict
+        return PAR(self.call, i) if self.by_key else If(i < NPOS(self.call), PAR(self.call, i), PARD(self.call, i))
+
     def binop(self, it, op_, other, node):
         # expr_parameters += tuple(values sorted by key)
         if op_ is pyast.Add and isinstance(other, VKwVals) and other.call.eq(self.call):
-            return VParams(self.call, NPAR(self.call), True)
+            return VParams(self.call, NPAR(self.call), True, other.by_key)
         raise Unsupported("parameter op")
 
 
 class VKwVals(V):
     ty = None
 
-    def __init__(self, call):
+    def __init__(self, call, by_key=True):
         self.call = call
+        self.by_key = by_key
 
 
 class VZip(V):
@@ -161,7 +168,7 @@ class VZip(V):
 
         def prologue():
             i = ex["$i"].t
-            it.assign(s.target, VTuple([EXPR.wrap(PAR(a.call, i)), EXPR.wrap(PAR(b.call, i))]))
+            it.assign(s.target, VTuple([EXPR.wrap(a.at(i)), EXPR.wrap(b.at(i))]))
 
         it.run_cut_loop(s, k, spec, guard_fn, prologue,
                         lambda: ex.__setitem__("$i", VInt(z3.simplify(ex["$i"].t + 1))), lambda: None)
@@ -209,7 +216,18 @@ class MapCall(UnifierContract):
 
     def comp_kwvals(self, ctx, it, e):
         src = pyast.unparse(e)
-        return VKwVals(self.e if "expr.kw_parameters" in src else self.o)
+        call = self.e if "expr.kw_parameters" in src else self.o
+        # (val for key, val in sorted(<call>.kw_parameters.items(), key=itemgetter(0))): values in key order
+        gen = e.generators[0] if len(e.generators) == 1 else None
+        by_key = False
+        if gen is not None and not gen.ifs and isinstance(gen.iter, pyast.Call) \
+                and pyast.unparse(gen.iter.func) == "sorted" and len(gen.iter.args) == 1 \
+                and pyast.unparse(gen.iter.args[0]).endswith(".kw_parameters.items()") \
+                and [(k.arg, pyast.unparse(k.value)) for k in gen.iter.keywords] in ([("key", "itemgetter(0)")], []) \
+                and isinstance(gen.target, pyast.Tuple) and len(gen.target.elts) == 2 \
+                and pyast.unparse(e.elt) == pyast.unparse(gen.target.elts[1]):
+            by_key = True
+        return VKwVals(call, by_key)
 
     @property
     def comprehensions(self):
@@ -252,7 +270,9 @@ class VKw(V):
     methods = {}
 
 
-VKw.methods = {"keys": lambda ctx, it, obj, a, k: ctx.deref(obj), "items": lambda ctx, it, obj, a, k: ctx.deref(obj)}
+VKw.methods = {"keys": lambda ctx, it, obj, a, k: ctx.deref(obj), "items": lambda ctx, it, obj, a, k: ctx.deref(obj),
+               # .values(): the keyword values in dict (insertion) order
+               "values": lambda ctx, it, obj, a, k: VKwVals(ctx.deref(obj).call, False)}
 
 
 class VKeySet(V):
